@@ -241,6 +241,7 @@ pub fn op_str(ops: &[Op]) -> String {
     ops.iter()
         .map(|o| match o {
             Op::W(n) => format!("w({n})"),
+            Op::WV(v) if v.len() > 8 && v.iter().all(|x| *x == v[0]) => format!("wv({} slices of {})", v.len(), v[0]),
             Op::WV(v) => format!("wv({v:?})"),
             Op::Burst(n, s) => format!("burst({n}x{s})"),
             Op::Flush => "flush".into(),
